@@ -16,9 +16,11 @@ _TOC_CONTRACT = (
     "bookmark() == end_of_TOC; iter_bitstream_order() yields exactly n items, the k-th = (kind of the section with P(i) == k, end_of_TOC + sum(s[..k]), s[k]); "
     "adjust_offsets(g <= end_of_TOC) subtracts g from every offset and changes nothing else")
 for _h, _shape, _tier, _to in [
-        ("parse_single_contract", "1 entry (1x1 frame, 1 pass), permuted or not", "quick", 600),
+        ("parse_single_plain_contract", "1 entry (1x1 frame, 1 pass), not permuted", "quick", 600),
+        ("parse_single_permuted_contract", "1 entry, permuted_toc set (the only permutation of one entry)", "quick", 600),
         ("parse_two_passes_plain_contract", "5 entries (1 group, 2 passes), not permuted", "quick", 600),
         ("parse_two_passes_permuted_contract", "5 entries (1 group, 2 passes), every permutation of the 5 entries", "quick", 900),
+        ("parse_two_groups_plain_contract", "5 entries (2 groups: 257x1 frame, 1 pass), not permuted", "thorough", 1200),
         ("parse_two_groups_permuted_contract", "5 entries (2 groups: 257x1 frame, 1 pass), every permutation", "thorough", 1200),
         ("parse_two_by_two_permuted_contract", "7 entries (2 groups, 2 passes), every permutation of the 7 entries", "thorough", 1200)]:
     K("toc." + _h.replace("_contract", ""), ["C14", "C01"], "jxl-frame", _TOC, _TOCM, _h,
